@@ -12,6 +12,7 @@ import (
 	"context"
 	"fmt"
 	"math"
+	"math/big"
 	"strings"
 
 	"github.com/PelicanPlatform/classad/classad"
@@ -354,10 +355,42 @@ func c08EncodeOne(res *vlib.Result, exprs []string, st c09State, pad bool, withT
 	res.Outcome("encode-ok")
 }
 
+// c08Extremes: decimal numerals at and around 2^31, 2^32, 2^53, 2^63, 2^64,
+// 10^18..10^22 and the float64 limits, decorated with signs, blanks, leading
+// zeros, fractions and exponents.
+func c08Extremes() []string {
+	var bases []string
+	add := func(b *big.Int) {
+		for d := int64(-2); d <= 2; d++ {
+			bases = append(bases, new(big.Int).Add(b, big.NewInt(d)).String())
+		}
+	}
+	for _, sh := range []uint{31, 32, 53, 63, 64, 127, 128} {
+		add(new(big.Int).Lsh(big.NewInt(1), sh))
+	}
+	for n := 17; n <= 23; n++ {
+		bases = append(bases, strings.Repeat("9", n), "1"+strings.Repeat("0", n-1), "1"+strings.Repeat("0", n-2)+"1")
+	}
+	bases = append(bases, strings.Repeat("9", 309), "1"+strings.Repeat("0", 308), "17976931348623157"+strings.Repeat("0", 292), "17976931348623159"+strings.Repeat("0", 292))
+	var out []string
+	for _, b := range bases {
+		for _, sign := range []string{"", "-", "+", "- "} {
+			for _, suf := range []string{"", ".", ".0", ".5", "e0", "E1", " ", "e-1"} {
+				out = append(out, sign+b+suf, " "+sign+b+suf)
+			}
+			out = append(out, sign+"0"+b)
+		}
+	}
+	for _, r := range []string{"1e308", "1e309", "1.7976931348623157e308", "1.7976931348623159e308", "1.8e308", "4.9e-324", "2e-324", "1e-400", "0." + strings.Repeat("0", 330) + "1", "1e", "1e+", "1.e5", ".5", "-.5", "5.e", "9223372036854775807.0", "9223372036854775808.0", "-9223372036854775808.0", "9.223372036854775807e18", "0.0", "-0", "-0.0", "00", "-00", "0e0", "1E400", "-1e400"} {
+		out = append(out, r, " "+r, r+" ", "-"+r)
+	}
+	return out
+}
+
 func C08Plan() *vlib.Plan {
 	p := &vlib.Plan{
 		Property: "C08", Level: "exploration",
-		Rule: "E-ENUM. Decode side: every string of length <= L over the 17-symbol alphabet {0 1 9 - + . e E x p _ \" \\ a t T space} as the value text of one attribute, framed by the reference and read by the real GetClassAd; oracle = full parser (same structure, or same defined value) / independent old-style lone-string rule / must reject. Encode side: every expression of a bounded grammar (literals incl. integer/real extremes, strings with quotes/backslashes/controls/UTF-8, refs, unary, binary, ?:, strcat, lists, nested ads; depth <= D) in ads of 1-2 attributes, with/without type names, single- and multi-frame, 3 stream states, through GetClassAd / GetClassAdRaw+ParseOld / SkipClassAdRaw each followed by a sentinel. Non-trivial = text accepted by the parser (decode) / ad sent (encode).",
+		Rule:   "E-ENUM. Decode side: every string of length <= L over the 17-symbol alphabet {0 1 9 - + . e E x p _ \" \\ a t T space} as the value text of one attribute, framed by the reference and read by the real GetClassAd; oracle = full parser (same structure, or same defined value) / independent old-style lone-string rule / must reject; plus ~3000 decorated numerals at and around 2^31, 2^32, 2^53, 2^63, 2^64, 2^127, 2^128, 10^17..10^22 and the float64 limits. Encode side: every expression of a bounded grammar (literals incl. integer/real extremes, strings with quotes/backslashes/controls/UTF-8, refs, unary, binary, ?:, strcat, lists, nested ads; depth <= D) in ads of 1-2 attributes, with/without type names, single- and multi-frame, 3 stream states, through GetClassAd / GetClassAdRaw+ParseOld / SkipClassAdRaw each followed by a sentinel. Non-trivial = text accepted by the parser (decode) / ad sent (encode).",
 		Assume: []string{"reference = github.com/PelicanPlatform/classad ParseExpr (the 'full parser' of the statement)"},
 	}
 	p.Gen = func(tier string, yield func(vlib.Case)) {
@@ -402,6 +435,16 @@ func C08Plan() *vlib.Plan {
 			for _, t := range []string{"true", "TRUE", "tRuE", "false", "False", " true ", "truex", "T", "undefined", "error", `"a" + "b"`, `"a"b"`, `"\S"`, `"a\"b"`, `"a\\"`, "010", "1.", "0x1.8p1", "1_0.5", "-5", "- 5", "5 ", "1e5", "1.5e+3", "strcat(\"a\",\"b\")", "{1,2}", "[a=1]"} {
 				c08DecodeOne(res, t)
 			}
+			return res
+		}})
+		// integer and real extremes: numerals around every width boundary, each with
+		// every sign / blank / fraction / exponent decoration the shortcut looks at
+		yield(vlib.Case{ID: "decode/numeric-extremes", Run: func() *vlib.Result {
+			res := &vlib.Result{}
+			for _, t := range c08Extremes() {
+				c08DecodeOne(res, t)
+			}
+			res.Sample = map[string]any{"texts": res.Evals}
 			return res
 		}})
 		// encode side
